@@ -64,6 +64,9 @@ class Registered:
     pass
 
 
+NamesakeOfRegistered = type("Registered", (), {"__module__": Registered.__module__, "__doc__": "another class with the module and name of a registered one; not registered itself"})
+
+
 class SubRegistered(Registered):
     """a subclass of a registered type that is not registered itself: not deserialisable"""
 
@@ -74,8 +77,9 @@ def _a_function():
 
 _T = typing.TypeVar("_T")
 
-ATTR_KINDS = ["missing", "function", "module", "typevar", "int", "plain-class", "registered-class", "serializer", "serializer-without-from_json", "generic-alias", "subclass-of-registered-class", "unhashable-object"]
+ATTR_KINDS = ["missing", "function", "module", "typevar", "int", "plain-class", "registered-class", "serializer", "serializer-without-from_json", "generic-alias", "subclass-of-registered-class", "unhashable-object", "namesake-of-registered-class"]
 ATTR_OBJECTS = {
+    "namesake-of-registered-class": NamesakeOfRegistered,
     "subclass-of-registered-class": SubRegistered,
     "unhashable-object": ["not", "a", "class"],
     "function": _a_function,
@@ -260,7 +264,11 @@ def _verdict(ctx, tag, doc, pick, import_kind, attr_kind, malformed, missing_at=
 def str_tag_case(length, ik, ak, nested=False):
     def h(ctx):
         tag = fresh_str(ctx, "tag", length, min_len=length)
-        if nested:
+        if nested == "twice":
+            # the same tag in two elements of one list document (and once more in a nested list)
+            doc = [{JSON_TYPE_NAME: tag}, 1, {JSON_TYPE_NAME: tag}, [{JSON_TYPE_NAME: tag}]]
+            pick = lambda r: r[0]
+        elif nested:
             doc = [1, {JSON_TYPE_NAME: tag}, [None, "s"]]
             pick = lambda r: r[1]
         else:
@@ -404,6 +412,8 @@ def cases(tier, seed):
                 cs.append(Case("str-tag|len=%d|import:%s|attr:%s" % (n, ik, ak), str_tag_case(n, ik, ak), key="str-tag|import:%s|attr:%s" % (ik, ak), timeout=900, max_paths=400000, validate=1, meta=dict(length=n)))
     for n in range(0, min(L, 5) + 1):
         cs.append(Case("str-tag-nested|len=%d" % n, str_tag_case(n, "module", "serializer", nested=True), key="str-tag-nested", timeout=600, validate=1))
+        cs.append(Case("str-tag-twice-in-a-list-missing|len=%d" % n, str_tag_case(n, "module", "missing", nested="twice"), key="str-tag-twice", timeout=600, validate=1))
+        cs.append(Case("str-tag-twice-in-a-list-not-found|len=%d" % n, str_tag_case(n, "module-not-found", "missing", nested="twice"), key="str-tag-twice", timeout=600, validate=1))
         cs.append(Case("str-tag-nested-missing|len=%d" % n, str_tag_case(n, "module", "missing", nested=True), key="str-tag-nested", timeout=600, validate=1))
     cs += [
         Case("int-tag", int_tag_case(), validate=2),
